@@ -9,7 +9,6 @@ import (
 	"os/exec"
 	"path/filepath"
 	"runtime"
-	"runtime/debug"
 	"sort"
 	"strconv"
 	"strings"
@@ -178,6 +177,36 @@ type jobResult struct {
 	WallMs    int64            `json:"wall_ms"`
 }
 
+// panicKeyClass: stable class of a recovered panic for violation keys: the engine's class (runtime error
+// kinds; explicit panic messages with digit runs normalised) plus the file of the innermost circl frame.
+func panicKeyClass(what string) string {
+	c := verifmc.PanicClass(what)
+	var b strings.Builder
+	prevDigit := false
+	for _, r := range c {
+		if r >= '0' && r <= '9' {
+			if !prevDigit {
+				b.WriteByte('N')
+			}
+			prevDigit = true
+			continue
+		}
+		prevDigit = false
+		if r == '|' {
+			r = '/'
+		}
+		b.WriteRune(r)
+	}
+	c = strings.TrimSpace(b.String())
+	if len(c) > 32 {
+		c = c[:32]
+	}
+	if site := verifmc.PanicSite(what); site != "" && !strings.Contains(site, "internal/verifref/") {
+		c += "@" + site
+	}
+	return c
+}
+
 func mutClass(name string) string {
 	for _, p := range []string{"x:", "typed:", "trunc", "flip", "fill", "append", "one", "empty", "valid"} {
 		if strings.HasPrefix(name, p) {
@@ -219,7 +248,8 @@ func WorkerMain(t *testing.T, rows []*Row) {
 		t.Fatalf("worker: result file: %v", err)
 	}
 	defer out.Close()
-	debug.SetMaxStack(512 << 20) // half the default: an honest parser never needs it, a runaway recursion dies sooner
+	// the runtime's default stack limit (1 GB on 64-bit) is kept on purpose: a lower one would turn deep but
+	// finite recursions that a default process survives into false alarms
 	if lim, _ := strconv.ParseUint(os.Getenv("VERIF_C10_ASLIMIT"), 10, 64); lim > 0 {
 		_ = syscall.Setrlimit(syscall.RLIMIT_AS, &syscall.Rlimit{Cur: lim, Max: lim})
 	}
@@ -362,7 +392,7 @@ func runJob(sh *shm, w, ji int, row *Row, rs *rowSpace, lo, hi int, only string)
 				lc = LenClass(len(data), baseLen)
 				desc = fmt.Sprintf("%s (%d bytes; valid encoding has %d)", name, len(data), baseLen)
 			}
-			key := fmt.Sprintf("C10|%s|panic:%s|%s", row.Name, verifmc.PanicClass(what), lc)
+			key := fmt.Sprintf("C10|%s|panic:%s|%s", row.Name, panicKeyClass(what), lc)
 			if _, ok := viol[key]; !ok {
 				viol[key] = &ViolationRec{Key: key, Index: idx, Case: caseID,
 					What:   fmt.Sprintf("%s panics on %s: %s", row.Name, desc, what),
